@@ -7,6 +7,8 @@
   `(start_i/SR + delay, len)` with `start_i` the *post-rounding* start sample (`segMarks`).
 -/
 import BB.Proofs.Forge
+import BB.Proofs.G1Markers
+import BB.Proofs.G1Insert
 
 namespace BB.C03
 open BB
@@ -209,6 +211,554 @@ def exampleBP : BP :=
 
 example : (forgeBP exampleBP).toOption.map (fun f => (f.m1, f.m2)) =
     some ([0,1,1,1,0,0,0,0,0,0,0,0,0,0,0,1,1,1,1,1], [0,0,0,0,0,0,0,0,1,1,1,1,1,0,0,0,0,0,0,0]) := by
+  decide +kernel
+
+/-! ### audit round: counts tied down, argmin, frame theorems on the forged result -/
+
+/-- `markers_spec` with the counts tied down: the sample counts `ns` whose cumulative sums are the
+    segment starts are exactly the rounded counts `round(d_i·SR)` of the resolved durations (stored
+    duration, or `t - elapsed` for a waituntil) - the *post-rounding* starts. -/
+theorem markers_spec_counts (b : BP) (f : Forged) (h : forgeBP b = .ok f) :
+    ∃ sr durs, b.SR = .num sr ∧ b.resolveWaits = .ok durs ∧ durs.length = b.segs.length ∧
+      (∀ d ∈ durs, 2 ≤ rhe (d * sr)) ∧
+      f.N = sumN (durs.map (fun d => (rhe (d * sr)).toNat)) ∧
+      f.m1.length = f.N ∧ f.m2.length = f.N ∧
+      (∀ x ∈ f.m1, x = 0 ∨ x = 1) ∧ (∀ x ∈ f.m2, x = 0 ∨ x = 1) ∧
+      (∀ k (hk : k < f.m1.length), f.m1[k] = 1 ↔
+        ∃ m ∈ b.marker1 ++ segMarks sr (·.m1) b.segs (starts (durs.map (fun d => (rhe (d * sr)).toNat)) 0),
+          (window f.N sr m).1 ≤ k ∧ k < (window f.N sr m).2) ∧
+      (∀ k (hk : k < f.m2.length), f.m2[k] = 1 ↔
+        ∃ m ∈ b.marker2 ++ segMarks sr (·.m2) b.segs (starts (durs.map (fun d => (rhe (d * sr)).toNat)) 0),
+          (window f.N sr m).1 ≤ k ∧ k < (window f.N sr m).2) := by
+  obtain ⟨sr, durs, ns, hsr, hd, hn, hbs, hf⟩ := (forge_ok_iff b f).mp h
+  obtain ⟨h2, hns⟩ := countsGo_ok sr durs ns hn
+  obtain ⟨sr', ns', hsr', hN, hl1, hl2, hb1, hb2, hw1, hw2⟩ := markers_spec b f h
+  -- `markers_spec` hides its witnesses; redo the two window clauses with the explicit counts
+  have hns' : ns = durs.map (fun d => (rhe (d * sr)).toNat) := hns
+  subst hf
+  refine ⟨sr, durs, hsr, hd, resolveGo_length _ _ _ hd, h2, by rw [← hns']; rfl, hl1, hl2, hb1, hb2, ?_, ?_⟩
+  · intro k hk
+    rw [← hns']
+    simp only [assemble] at hk ⊢
+    rw [paint_on_iff]
+    constructor
+    · rintro ⟨w, hw, h1, h2⟩
+      obtain ⟨m, hm, rfl⟩ := List.mem_map.mp hw
+      exact ⟨m, hm, h1, h2⟩
+    · rintro ⟨m, hm, h1, h2⟩
+      exact ⟨_, List.mem_map.mpr ⟨m, hm, rfl⟩, h1, h2⟩
+  · intro k hk
+    rw [← hns']
+    simp only [assemble] at hk ⊢
+    rw [paint_on_iff]
+    constructor
+    · rintro ⟨w, hw, h1, h2⟩
+      obtain ⟨m, hm, rfl⟩ := List.mem_map.mp hw
+      exact ⟨m, hm, h1, h2⟩
+    · rintro ⟨m, hm, h1, h2⟩
+      exact ⟨_, List.mem_map.mpr ⟨m, hm, rfl⟩, h1, h2⟩
+
+example : (forgeBP exampleBP).toOption.isSome = true := by decide +kernel
+
+/-- **General specification of the window start** (`np.abs(time - t).argmin()`): on a non-empty
+    time axis the start index lies on the axis, no sample of the axis is closer to `t·SR`, and every
+    earlier sample is strictly farther away (first minimiser).  This covers ON times before the
+    waveform (index 0), beyond its end (last index) and exact ties (the lower index). -/
+theorem window_start_argmin (N : Nat) (sr : Rat) (m : Mark) (hN : 0 < N) :
+    (window N sr m).1 < N ∧
+    (∀ k : Nat, k < N → |m.1 * sr - ((window N sr m).1 : ℚ)| ≤ |m.1 * sr - (k : ℚ)|) ∧
+    (∀ k : Nat, k < (window N sr m).1 → |m.1 * sr - ((window N sr m).1 : ℚ)| < |m.1 * sr - (k : ℚ)|) :=
+  nearestIdx_argmin N (m.1 * sr) hN
+
+/-- the same in seconds, for a positive sample rate: the start sample minimises `|k/SR - t_on|` -/
+theorem window_start_argmin_time (N : Nat) (sr : Rat) (m : Mark) (hN : 0 < N) (hsr : 0 < sr) :
+    (window N sr m).1 < N ∧
+    (∀ k : Nat, k < N → |((window N sr m).1 : ℚ) / sr - m.1| ≤ |(k : ℚ) / sr - m.1|) ∧
+    (∀ k : Nat, k < (window N sr m).1 → |((window N sr m).1 : ℚ) / sr - m.1| < |(k : ℚ) / sr - m.1|) :=
+  nearestIdx_argmin_time N m.1 sr hN hsr
+
+/-- ... and in a forged non-empty blueprint the axis is never empty -/
+theorem forged_axis_nonempty (b : BP) (f : Forged) (h : forgeBP b = .ok f) (hne : b.segs ≠ []) : 0 < f.N := by
+  obtain ⟨sr, durs, _, _, hlen, h2, hN, _⟩ := markers_spec_counts b f h
+  rw [hN]
+  cases durs with
+  | nil => exact absurd (List.eq_nil_of_length_eq_zero hlen.symm) hne
+  | cons d ds =>
+    have := h2 d (by simp)
+    simp only [List.map_cons, sumN]
+    omega
+
+example : window 20 10 ((-3 : ℚ), 1) = (0, 10) ∧ window 20 10 ((5 : ℚ), 1) = (19, 20) ∧
+    window 20 10 ((1/4 : ℚ), 1/5) = (2, 4) := by decide +kernel
+
+/-- **`setSegmentMarker` never changes the waveform side of the forged result**: forging after the
+    call (accepted or refused) gives the same blocks, the same number of samples, the same sample
+    rate and `newdurations`, or the same error, as forging before. -/
+theorem setSegmentMarker_keeps_wfm (b : BP) (name : String) (specs : Mark) (mid : Int) :
+    (forgeBP (b.setSegmentMarker name specs mid).st).map Forged.wfmPart = (forgeBP b).map Forged.wfmPart := by
+  obtain ⟨hs, _, _, hf, _, _⟩ := setSegmentMarker_fields b name specs mid
+  exact forgeBP_wfmPart_congr _ _ hs hf
+
+/-- the same, spelled out for a successful forge -/
+theorem setSegmentMarker_blocks_unchanged (b : BP) (name : String) (specs : Mark) (mid : Int)
+    (f : Forged) (h : forgeBP b = .ok f) :
+    ∃ f', forgeBP (b.setSegmentMarker name specs mid).st = .ok f' ∧
+      f'.blocks = f.blocks ∧ f'.N = f.N ∧ f'.SR = f.SR ∧ f'.newdurations = f.newdurations := by
+  obtain ⟨f', h1, h2⟩ := map_eq_ok _ _ _ (setSegmentMarker_keeps_wfm b name specs mid) f h
+  simp only [Forged.wfmPart, Prod.mk.injEq] at h2
+  exact ⟨f', h1, h2.1, h2.2.1, h2.2.2.1, h2.2.2.2⟩
+
+/-- ... and it leaves the *other* marker channel's array untouched -/
+theorem setSegmentMarker_other_channel (b : BP) (name : String) (specs : Mark) (mid : Int) :
+    (mid = 1 → (forgeBP (b.setSegmentMarker name specs mid).st).map (·.m2) = (forgeBP b).map (·.m2)) ∧
+    (mid ≠ 1 → (forgeBP (b.setSegmentMarker name specs mid).st).map (·.m1) = (forgeBP b).map (·.m1)) := by
+  obtain ⟨hs, ha1, ha2, hf, h2, h1⟩ := setSegmentMarker_fields b name specs mid
+  exact ⟨fun hm => forgeBP_m2_congr _ _ hs hf (h2 hm) ha2, fun hm => forgeBP_m1_congr _ _ hs hf (h1 hm) ha1⟩
+
+/-- **`removeSegmentMarker` never changes the waveform side of the forged result.** -/
+theorem removeSegmentMarker_keeps_wfm (b : BP) (name : String) (mid : Int) :
+    (forgeBP (b.removeSegmentMarker name mid).st).map Forged.wfmPart = (forgeBP b).map Forged.wfmPart := by
+  obtain ⟨hs, _, _, hf, _, _⟩ := removeSegmentMarker_fields b name mid
+  exact forgeBP_wfmPart_congr _ _ hs hf
+
+/-- the same, spelled out for a successful forge (C03: marker specifications never change
+    waveform samples) -/
+theorem removeSegmentMarker_blocks_unchanged (b : BP) (name : String) (mid : Int)
+    (f : Forged) (h : forgeBP b = .ok f) :
+    ∃ f', forgeBP (b.removeSegmentMarker name mid).st = .ok f' ∧
+      f'.blocks = f.blocks ∧ f'.N = f.N ∧ f'.SR = f.SR ∧ f'.newdurations = f.newdurations := by
+  obtain ⟨f', h1, h2⟩ := map_eq_ok _ _ _ (removeSegmentMarker_keeps_wfm b name mid) f h
+  simp only [Forged.wfmPart, Prod.mk.injEq] at h2
+  exact ⟨f', h1, h2.1, h2.2.1, h2.2.2.1, h2.2.2.2⟩
+
+/-- ... and it leaves the *other* marker channel's array untouched -/
+theorem removeSegmentMarker_other_channel (b : BP) (name : String) (mid : Int) :
+    (mid = 1 → (forgeBP (b.removeSegmentMarker name mid).st).map (·.m2) = (forgeBP b).map (·.m2)) ∧
+    (mid ≠ 1 → (forgeBP (b.removeSegmentMarker name mid).st).map (·.m1) = (forgeBP b).map (·.m1)) := by
+  obtain ⟨hs, ha1, ha2, hf, h2, h1⟩ := removeSegmentMarker_fields b name mid
+  exact ⟨fun hm => forgeBP_m2_congr _ _ hs hf (h2 hm) ha2, fun hm => forgeBP_m1_congr _ _ hs hf (h1 hm) ha1⟩
+
+/-- **Assigning the absolute marker lists** (`bp.marker1 = [...]`, `bp.marker2 = [...]`) never
+    changes the waveform side of the forged result, and assigning one list leaves the other
+    channel's array as it was. -/
+theorem marker_assignment_keeps_wfm (b : BP) (l1 l2 : List Mark) :
+    (forgeBP { b with marker1 := l1, marker2 := l2 }).map Forged.wfmPart = (forgeBP b).map Forged.wfmPart ∧
+    (forgeBP { b with marker1 := l1 }).map (·.m2) = (forgeBP b).map (·.m2) ∧
+    (forgeBP { b with marker2 := l2 }).map (·.m1) = (forgeBP b).map (·.m1) :=
+  ⟨forgeBP_wfmPart_congr _ _ rfl rfl, forgeBP_m2_congr _ _ rfl rfl rfl rfl, forgeBP_m1_congr _ _ rfl rfl rfl rfl⟩
+
+/-- the same, spelled out for a successful forge (C03: marker specifications never change
+    waveform samples) -/
+theorem marker_assignment_blocks_unchanged (b : BP) (l1 l2 : List Mark) (f : Forged) (h : forgeBP b = .ok f) :
+    ∃ f', forgeBP { b with marker1 := l1, marker2 := l2 } = .ok f' ∧
+      f'.blocks = f.blocks ∧ f'.N = f.N ∧ f'.SR = f.SR ∧ f'.newdurations = f.newdurations := by
+  obtain ⟨f', h1, h2⟩ := map_eq_ok _ _ _ (marker_assignment_keeps_wfm b l1 l2).1 f h
+  simp only [Forged.wfmPart, Prod.mk.injEq] at h2
+  exact ⟨f', h1, h2.1, h2.2.1, h2.2.2.1, h2.2.2.2⟩
+
+/-- all marker operations of the public API at once (`BP.step`): none changes the waveform side -/
+theorem marker_ops_keep_wfm (b : BP) (o : BP.Op)
+    (ho : (∃ n s m, o = .setSegMarker n s m) ∨ (∃ n m, o = .removeSegMarker n m) ∨
+      (∃ l, o = .setMarker1 l) ∨ (∃ l, o = .setMarker2 l)) :
+    (forgeBP (b.step o).st).map Forged.wfmPart = (forgeBP b).map Forged.wfmPart := by
+  rcases ho with ⟨n, s, m, rfl⟩ | ⟨n, m, rfl⟩ | ⟨l, rfl⟩ | ⟨l, rfl⟩
+  · exact setSegmentMarker_keeps_wfm b n s m
+  · exact removeSegmentMarker_keeps_wfm b n m
+  · exact forgeBP_wfmPart_congr _ _ rfl rfl
+  · exact forgeBP_wfmPart_congr _ _ rfl rfl
+
+/-- **`changeArg` never changes a marker**: forging after any `changeArg` call (accepted, refused,
+    or refused half-way through a `replaceeverywhere` loop) gives the same two marker arrays, the
+    same number of samples, sample rate, `newdurations` and block lengths - or the same error - as
+    forging before.  (`changeArg` refuses waituntil segments, so no duration can move.) -/
+theorem changeArg_keeps_markers (b : BP) (name : String) (arg value : Val) (all : Bool) :
+    (forgeBP (b.changeArg name arg value all).st).map Forged.markPart = (forgeBP b).map Forged.markPart := by
+  have h := argFrame_changeArg b name arg value all
+  exact forgeBP_markPart_congr _ _ h.sr h.fn h.timing h.m1 h.m2 h.a1 h.a2
+
+/-- the same, spelled out for a successful forge -/
+theorem changeArg_markers_unchanged (b : BP) (name : String) (arg value : Val) (all : Bool)
+    (f : Forged) (h : forgeBP b = .ok f) :
+    ∃ f', forgeBP (b.changeArg name arg value all).st = .ok f' ∧
+      f'.m1 = f.m1 ∧ f'.m2 = f.m2 ∧ f'.N = f.N ∧ f'.blocks.map Blk.len = f.blocks.map Blk.len := by
+  obtain ⟨f', h1, h2⟩ := map_eq_ok _ _ _ (changeArg_keeps_markers b name arg value all) f h
+  simp only [Forged.markPart, Prod.mk.injEq] at h2
+  exact ⟨f', h1, h2.1, h2.2.1, h2.2.2.1, h2.2.2.2.2.2⟩
+
+example : (exampleBP.changeArg "ramp" (.str "stop") (.num 7) false).err = none ∧
+    (exampleBP.changeArg "ramp" (.str "stop") (.num 7) false).st ≠ exampleBP ∧
+    (exampleBP.setSegmentMarker "ramp2" (1/10, 1/5) 1).err = none ∧
+    (exampleBP.removeSegmentMarker "ramp" 1).err = none := by decide +kernel
+
+/-! ### insert shift: segment-bound markers travel with their segment -/
+
+/-- **Window shift** (restated from `BB.window_shift`): on a waveform that became `n` samples
+    longer, the window of a marker whose ON time moved by `n` samples is the old window moved by
+    `n` samples, start and clipped stop alike - for an ON time not before the waveform and a
+    non-negative rounded length. -/
+theorem shifted_window (N n : Nat) (sr : Rat) (m : Mark) (hN : 0 < N) (hsr : sr ≠ 0)
+    (hon : 0 ≤ m.1 * sr) (hlen : 0 ≤ rhe (m.2 * sr)) :
+    window (N + n) sr (shiftMark sr n m) = ((window N sr m).1 + n, (window N sr m).2 + n) :=
+  window_shift N n sr m hN hsr hon hlen
+
+/-- without the "ON time inside the waveform" hypothesis the shift fails: a marker 3 samples
+    before the start of a 20-sample waveform starts at sample 0, but after a 10-sample shift at
+    sample 7, not 10 -/
+example : window 20 10 ((-3/10 : ℚ), 1/2) = (0, 5) ∧
+    window 30 10 (shiftMark 10 10 ((-3/10 : ℚ), 1/2)) = (7, 12) := by decide +kernel
+
+/-- **Insert shift.**  `b.segs = pre ++ post` with no waituntil in `post`; an ordinary callable with
+    numeric duration `d` (at least two samples) is inserted at position `|pre|` and the call is
+    accepted.  Then the new blueprint forges, the waveform is `n = round(d·SR)` samples longer, the
+    block lengths are the old ones with `n` inserted at `|pre|`, and the marker arrays before and
+    after are described by the *same* three groups of markers -
+    the absolute markers, the segment-bound markers of the earlier segments (`earlierMarks`), and the
+    segment-bound markers of the later segments (`laterMarks`) -
+    where after the insertion exactly the third group is moved by `n` samples in time
+    (`shiftMark`): the markers of later segments travel with their segments, nothing else moves.
+    (`laterMarks_mem` says what the later marks are; `shifted_window` turns the moved marker into
+    the moved window.) -/
+theorem insert_shifts_later_markers (b : BP) (pre post : List Seg) (fn : Fn) (args : List Val) (d : Rat)
+    (name : Val) (hb : b.segs = pre ++ post) (hpost : ∀ s ∈ post, s.fn.isWait = false)
+    (hfn : fn.special = false)
+    (hacc : (b.insertSegment (pre.length : Int) fn args (.num d) name).err = none)
+    (f : Forged) (hf : forgeBP b = .ok f) (sr : Rat) (hsr : b.SR = .num sr) (hn : 2 ≤ rhe (d * sr)) :
+    ∃ f', forgeBP (b.insertSegment (pre.length : Int) fn args (.num d) name).st = .ok f' ∧
+      f'.N = f.N + (rhe (d * sr)).toNat ∧
+      f'.blocks.map Blk.len = (f.blocks.map Blk.len).take pre.length ++
+        (rhe (d * sr)).toNat :: (f.blocks.map Blk.len).drop pre.length ∧
+      (∀ k (hk : k < f.m1.length), f.m1[k] = 1 ↔
+        (∃ m ∈ b.marker1 ++ earlierMarks sr (·.m1) pre (f.blocks.map Blk.len), onAt (window f.N sr m) k) ∨
+        (∃ m ∈ laterMarks sr (·.m1) pre post (f.blocks.map Blk.len), onAt (window f.N sr m) k)) ∧
+      (∀ k (hk : k < f'.m1.length), f'.m1[k] = 1 ↔
+        (∃ m ∈ b.marker1 ++ earlierMarks sr (·.m1) pre (f.blocks.map Blk.len), onAt (window f'.N sr m) k) ∨
+        (∃ m ∈ laterMarks sr (·.m1) pre post (f.blocks.map Blk.len),
+          onAt (window f'.N sr (shiftMark sr (rhe (d * sr)).toNat m)) k)) ∧
+      (∀ k (hk : k < f.m2.length), f.m2[k] = 1 ↔
+        (∃ m ∈ b.marker2 ++ earlierMarks sr (·.m2) pre (f.blocks.map Blk.len), onAt (window f.N sr m) k) ∨
+        (∃ m ∈ laterMarks sr (·.m2) pre post (f.blocks.map Blk.len), onAt (window f.N sr m) k)) ∧
+      (∀ k (hk : k < f'.m2.length), f'.m2[k] = 1 ↔
+        (∃ m ∈ b.marker2 ++ earlierMarks sr (·.m2) pre (f.blocks.map Blk.len), onAt (window f'.N sr m) k) ∨
+        (∃ m ∈ laterMarks sr (·.m2) pre post (f.blocks.map Blk.len),
+          onAt (window f'.N sr (shiftMark sr (rhe (d * sr)).toNat m)) k)) := by
+  obtain ⟨sr', dp, dq, nm, hsr', hd, hpl, hql, hfa, hok, _⟩ :=
+    forge_insert b pre post fn args d name hb hpost hfn hacc f hf
+  have e : sr' = sr := by rw [hsr] at hsr'; cases hsr'; rfl
+  subst e
+  have hnp : (dp.map (fun x => (rhe (x * sr')).toNat)).length = pre.length := by simp [hpl]
+  have hnq : (dq.map (fun x => (rhe (x * sr')).toNat)).length = post.length := by simp [hql]
+  have hlens : f.blocks.map Blk.len =
+      dp.map (fun x => (rhe (x * sr')).toNat) ++ dq.map (fun x => (rhe (x * sr')).toNat) := by
+    rw [hfa]; simp only [assemble]
+    rw [mkBlocks_lens sr' b.segs _ (by simp [hb, hpl, hql])]; simp
+  have htake : (f.blocks.map Blk.len).take pre.length = dp.map (fun x => (rhe (x * sr')).toNat) := by
+    rw [hlens]; exact List.take_left' hnp
+  have hdrop : (f.blocks.map Blk.len).drop pre.length = dq.map (fun x => (rhe (x * sr')).toNat) := by
+    rw [hlens]; exact List.drop_left' hnp
+  have hfN : f.N = sumN (dp.map (fun x => (rhe (x * sr')).toNat) ++ dq.map (fun x => (rhe (x * sr')).toNat)) := by
+    rw [hfa]; simp [assemble]
+  have hfa' : f = assemble b sr' (dp.map (fun x => (rhe (x * sr')).toNat) ++
+      dq.map (fun x => (rhe (x * sr')).toNat)) := by rw [hfa, List.map_append]
+  have hfm := assemble_split_m b pre post hb sr' _ (dq.map (fun x => (rhe (x * sr')).toNat)) hnp
+  rw [← hfa'] at hfm
+  have hfm' := assemble_insert_m { b with segs := pre ++ newSeg nm fn args (.num d) :: post } pre post
+    (newSeg nm fn args (.num d)) rfl rfl rfl sr' _ (dq.map (fun x => (rhe (x * sr')).toNat))
+    (rhe (d * sr')).toNat hnp
+  have key : ∀ (l : List Nat) (N : Nat) (A E L : List Mark)
+      (_ : l = paint N ((A ++ (E ++ L)).map (window N sr'))) (k : Nat) (hk : k < l.length),
+      l[k] = 1 ↔ (∃ m ∈ A ++ E, onAt (window N sr' m) k) ∨ (∃ m ∈ L, onAt (window N sr' m) k) := by
+    intro l N A E L hl k hk
+    subst hl
+    exact paint_split_iff N sr' A E L k hk
+  have key' : ∀ (l : List Nat) (N n : Nat) (A E L : List Mark)
+      (_ : l = paint N ((A ++ (E ++ L.map (shiftMark sr' n))).map (window N sr'))) (k : Nat) (hk : k < l.length),
+      l[k] = 1 ↔ (∃ m ∈ A ++ E, onAt (window N sr' m) k) ∨
+        (∃ m ∈ L, onAt (window N sr' (shiftMark sr' n m)) k) := by
+    intro l N n A E L hl k hk
+    subst hl
+    exact paint_split_shift_iff N n sr' A E L k hk
+  have hN' : (assemble { b with segs := pre ++ newSeg nm fn args (.num d) :: post } sr'
+      (dp.map (fun x => (rhe (x * sr')).toNat) ++ (rhe (d * sr')).toNat ::
+        dq.map (fun x => (rhe (x * sr')).toNat))).N = f.N + (rhe (d * sr')).toNat := by
+    rw [hfN, ← sumN_insert]; rfl
+  refine ⟨_, hok hn, hN', ?_, ?_, ?_, ?_, ?_⟩
+  · rw [htake, hdrop]
+    simp only [assemble]
+    exact mkBlocks_lens sr' _ _ (by simp [hpl, hql])
+  · unfold earlierMarks laterMarks
+    rw [htake, hdrop, hfN]
+    exact key _ _ _ _ _ hfm.1
+  · unfold earlierMarks laterMarks
+    rw [htake, hdrop, hN', hfN, ← sumN_insert]
+    exact key' _ _ _ _ _ _ hfm'.1
+  · unfold earlierMarks laterMarks
+    rw [htake, hdrop, hfN]
+    exact key _ _ _ _ _ hfm.2
+  · unfold earlierMarks laterMarks
+    rw [htake, hdrop, hN', hfN, ← sumN_insert]
+    exact key' _ _ _ _ _ _ hfm'.2
+
+/-- which markers the "later" group consists of: the segment-bound markers (non-zero length) of
+    the segments from the insertion point on, each at its own segment's start sample - the sum of the
+    sample counts of *all* segments before it - plus its delay -/
+theorem later_marks_are_the_later_segments (sr : Rat) (sel : Seg → Mark) (pre post : List Seg) (lens : List Nat)
+    (hl : lens.length = pre.length + post.length) (m : Mark) :
+    m ∈ laterMarks sr sel pre post lens ↔
+      ∃ (j : Nat) (_ : j < post.length), (sel post[j]).2 ≠ 0 ∧
+        m = ((((sumN (lens.take (pre.length + j)) : Nat) : Int) : ℚ) / sr + (sel post[j]).1, (sel post[j]).2) :=
+  laterMarks_mem sr sel pre post lens hl m
+
+/-- **Corollary: ON samples of a later segment's marker move by exactly the inserted count.**
+    In the situation of `insert_shifts_later_markers`, if a segment-bound marker of a later segment
+    (ON time inside the waveform, non-negative rounded length) switches sample `k` ON before the
+    insertion, then sample `k + round(d·SR)` is ON after it. -/
+theorem insert_moves_on_samples (b : BP) (pre post : List Seg) (fn : Fn) (args : List Val) (d : Rat)
+    (name : Val) (hb : b.segs = pre ++ post) (hpost : ∀ s ∈ post, s.fn.isWait = false)
+    (hfn : fn.special = false)
+    (hacc : (b.insertSegment (pre.length : Int) fn args (.num d) name).err = none)
+    (f : Forged) (hf : forgeBP b = .ok f) (sr : Rat) (hsr : b.SR = .num sr) (hn : 2 ≤ rhe (d * sr))
+    (hsr0 : sr ≠ 0) (m : Mark) (hm : m ∈ laterMarks sr (·.m1) pre post (f.blocks.map Blk.len))
+    (hon : 0 ≤ m.1 * sr) (hlen : 0 ≤ rhe (m.2 * sr)) (k : Nat) (hk : onAt (window f.N sr m) k) :
+    ∃ f', forgeBP (b.insertSegment (pre.length : Int) fn args (.num d) name).st = .ok f' ∧
+      ∃ hk' : k + (rhe (d * sr)).toNat < f'.m1.length, f'.m1[k + (rhe (d * sr)).toNat] = 1 ∧
+      ∃ hk0 : k < f.m1.length, f.m1[k] = 1 := by
+  obtain ⟨f', hf', hN, _, h1, h1', _, _⟩ :=
+    insert_shifts_later_markers b pre post fn args d name hb hpost hfn hacc f hf sr hsr hn
+  obtain ⟨_, _, _, _, _, _, _, hl1, _⟩ := C03.markers_spec_counts b f hf
+  obtain ⟨_, _, _, _, _, _, _, hl1', _⟩ := C03.markers_spec_counts _ f' hf'
+  have hNpos : 0 < f.N := by
+    have := hk.2
+    have := window_clipped f.N sr m
+    omega
+  have hkN : k < f.N := lt_of_lt_of_le hk.2 (window_clipped f.N sr m)
+  have hw := window_shift f.N (rhe (d * sr)).toNat sr m hNpos hsr0 hon hlen
+  refine ⟨f', hf', by rw [hl1', hN]; omega, ?_, by rw [hl1]; exact hkN, ?_⟩
+  · rw [h1']
+    right
+    refine ⟨m, hm, ?_⟩
+    rw [hN, hw]
+    exact ⟨by simp only; have := hk.1; omega, by simp only; have := hk.2; omega⟩
+  · rw [h1]
+    right
+    exact ⟨m, hm, hk⟩
+
+/-- the same on marker channel 2 -/
+theorem insert_moves_on_samples_m2 (b : BP) (pre post : List Seg) (fn : Fn) (args : List Val) (d : Rat)
+    (name : Val) (hb : b.segs = pre ++ post) (hpost : ∀ s ∈ post, s.fn.isWait = false)
+    (hfn : fn.special = false)
+    (hacc : (b.insertSegment (pre.length : Int) fn args (.num d) name).err = none)
+    (f : Forged) (hf : forgeBP b = .ok f) (sr : Rat) (hsr : b.SR = .num sr) (hn : 2 ≤ rhe (d * sr))
+    (hsr0 : sr ≠ 0) (m : Mark) (hm : m ∈ laterMarks sr (·.m2) pre post (f.blocks.map Blk.len))
+    (hon : 0 ≤ m.1 * sr) (hlen : 0 ≤ rhe (m.2 * sr)) (k : Nat) (hk : onAt (window f.N sr m) k) :
+    ∃ f', forgeBP (b.insertSegment (pre.length : Int) fn args (.num d) name).st = .ok f' ∧
+      ∃ hk' : k + (rhe (d * sr)).toNat < f'.m2.length, f'.m2[k + (rhe (d * sr)).toNat] = 1 ∧
+      ∃ hk0 : k < f.m2.length, f.m2[k] = 1 := by
+  obtain ⟨f', hf', hN, _, _, _, h2, h2'⟩ :=
+    insert_shifts_later_markers b pre post fn args d name hb hpost hfn hacc f hf sr hsr hn
+  obtain ⟨_, _, _, _, _, _, _, _, hl2, _⟩ := C03.markers_spec_counts b f hf
+  obtain ⟨_, _, _, _, _, _, _, _, hl2', _⟩ := C03.markers_spec_counts _ f' hf'
+  have hNpos : 0 < f.N := by
+    have := hk.2
+    have := window_clipped f.N sr m
+    omega
+  have hkN : k < f.N := lt_of_lt_of_le hk.2 (window_clipped f.N sr m)
+  have hw := window_shift f.N (rhe (d * sr)).toNat sr m hNpos hsr0 hon hlen
+  refine ⟨f', hf', by rw [hl2', hN]; omega, ?_, by rw [hl2]; exact hkN, ?_⟩
+  · rw [h2']
+    right
+    refine ⟨m, hm, ?_⟩
+    rw [hN, hw]
+    exact ⟨by simp only; have := hk.1; omega, by simp only; have := hk.2; omega⟩
+  · rw [h2]
+    right
+    exact ⟨m, hm, hk⟩
+
+/-- non-vacuity: insert a 0.5 s ramp in front of `ramp2` (which carries a marker on channel 2) -/
+example : exampleBP.segs = [exampleBP.segs[0]] ++ [exampleBP.segs[1]] ∧
+    (∀ s ∈ [exampleBP.segs[1]], s.fn.isWait = false) ∧ Fn.rampFn.special = false ∧
+    (exampleBP.insertSegment 1 Fn.rampFn [.num 0, .num 0] (.num (1/2)) .none).err = none ∧
+    (2 : Int) ≤ rhe ((1/2 : ℚ) * 10) := by
+  refine ⟨by decide +kernel, by decide +kernel, by decide, by decide +kernel, by decide +kernel⟩
+
+example : (forgeBP (exampleBP.insertSegment 1 Fn.rampFn [.num 0, .num 0] (.num (1/2)) .none).st).toOption.map
+      (fun f => (f.N, f.m2)) =
+    some (25, [0,0,0,0,0,0,0,0,0,0,0,0,0,1,1,1,1,1,0,0,0,0,0,0,0]) := by
+  decide +kernel
+
+/-! ### the same for removal and duration changes: blueprints sharing a waituntil-free suffix -/
+
+/-- **A forged blueprint split at an arbitrary point** `pre ++ post` (up to names): both marker
+    arrays are painted from the absolute markers, the segment-bound markers of `pre` and those of
+    `post`; and when `post` has no waituntil, the sample counts of its segments are the rounded
+    stored durations - they do not depend on what precedes. -/
+theorem markers_split_at (b : BP) (pre post : List Seg)
+    (hb : b.segs.map BP.Seg.body = (pre ++ post).map BP.Seg.body) (f : Forged) (hf : forgeBP b = .ok f) :
+    ∃ sr, b.SR = .num sr ∧ (f.blocks.map Blk.len).length = pre.length + post.length ∧
+      f.N = sumN ((f.blocks.map Blk.len).take pre.length) + sumN ((f.blocks.map Blk.len).drop pre.length) ∧
+      (∀ k (hk : k < f.m1.length), f.m1[k] = 1 ↔
+        (∃ m ∈ b.marker1 ++ earlierMarks sr (·.m1) pre (f.blocks.map Blk.len), onAt (window f.N sr m) k) ∨
+        (∃ m ∈ laterMarks sr (·.m1) pre post (f.blocks.map Blk.len), onAt (window f.N sr m) k)) ∧
+      (∀ k (hk : k < f.m2.length), f.m2[k] = 1 ↔
+        (∃ m ∈ b.marker2 ++ earlierMarks sr (·.m2) pre (f.blocks.map Blk.len), onAt (window f.N sr m) k) ∨
+        (∃ m ∈ laterMarks sr (·.m2) pre post (f.blocks.map Blk.len), onAt (window f.N sr m) k)) ∧
+      ((∀ s ∈ post, s.fn.isWait = false) →
+        (f.blocks.map Blk.len).drop pre.length =
+          (post.filterMap durOf?).map (fun x => (rhe (x * sr)).toNat)) := by
+  obtain ⟨sr, np, nq, hsr, hnp, hnq, hlens, hN, hm1, hm2, hpost, _, _⟩ := forge_split b pre post hb f hf
+  have key : ∀ (l : List Nat) (N : Nat) (A E L : List Mark)
+      (_ : l = paint N ((A ++ (E ++ L)).map (window N sr))) (k : Nat) (hk : k < l.length),
+      l[k] = 1 ↔ (∃ m ∈ A ++ E, onAt (window N sr m) k) ∨ (∃ m ∈ L, onAt (window N sr m) k) := by
+    intro l N A E L hl k hk
+    subst hl
+    exact paint_split_iff N sr A E L k hk
+  refine ⟨sr, hsr, by rw [hlens]; simp [hnp, hnq], ?_, ?_, ?_, ?_⟩
+  · rw [hlens, List.take_left' hnp, List.drop_left' hnp, hN, sumN_append]
+  · rw [hlens, earlierMarks_eq _ _ _ _ _ hnp, laterMarks_eq _ _ _ _ _ _ hnp, hN]
+    exact key _ _ _ _ _ hm1
+  · rw [hlens, earlierMarks_eq _ _ _ _ _ hnp, laterMarks_eq _ _ _ _ _ _ hnp, hN]
+    exact key _ _ _ _ _ hm2
+  · intro hp
+    rw [hlens, List.drop_left' hnp]
+    exact hpost hp
+
+/-- **Common suffix.**  Two blueprints at the same sample rate whose segment lists end (up to
+    names) in the same waituntil-free `post` - e.g. before and after inserting, removing or
+    re-timing segments in front of `post` - and that both forge: the segments of `post` get the same
+    sample counts in both, and if the part in front of `post` is `n` samples longer in the second,
+    the second waveform is `n` samples longer and the segment-bound markers of `post`
+    (`laterMarks`, see `markers_split_at`) are exactly those of the first moved by `n` samples. -/
+theorem common_suffix_shift (b1 b2 : BP) (pre1 pre2 post : List Seg)
+    (h1 : b1.segs.map BP.Seg.body = (pre1 ++ post).map BP.Seg.body)
+    (h2 : b2.segs.map BP.Seg.body = (pre2 ++ post).map BP.Seg.body)
+    (hpost : ∀ s ∈ post, s.fn.isWait = false) (sr : Rat) (hs1 : b1.SR = .num sr) (hs2 : b2.SR = .num sr)
+    (f1 f2 : Forged) (hf1 : forgeBP b1 = .ok f1) (hf2 : forgeBP b2 = .ok f2) :
+    (f2.blocks.map Blk.len).drop pre2.length = (f1.blocks.map Blk.len).drop pre1.length ∧
+    ∀ n : Nat, sumN ((f2.blocks.map Blk.len).take pre2.length) =
+        sumN ((f1.blocks.map Blk.len).take pre1.length) + n →
+      f2.N = f1.N + n ∧
+      laterMarks sr (·.m1) pre2 post (f2.blocks.map Blk.len) =
+        (laterMarks sr (·.m1) pre1 post (f1.blocks.map Blk.len)).map (shiftMark sr n) ∧
+      laterMarks sr (·.m2) pre2 post (f2.blocks.map Blk.len) =
+        (laterMarks sr (·.m2) pre1 post (f1.blocks.map Blk.len)).map (shiftMark sr n) := by
+  obtain ⟨sr1, e1, _, hN1, _, _, hd1⟩ := markers_split_at b1 pre1 post h1 f1 hf1
+  obtain ⟨sr2, e2, _, hN2, _, _, hd2⟩ := markers_split_at b2 pre2 post h2 f2 hf2
+  have : sr1 = sr := by rw [hs1] at e1; cases e1; rfl
+  subst this
+  have : sr2 = sr1 := by rw [hs2] at e2; cases e2; rfl
+  subst this
+  have hdrop : (f2.blocks.map Blk.len).drop pre2.length = (f1.blocks.map Blk.len).drop pre1.length := by
+    rw [hd1 hpost, hd2 hpost]
+  refine ⟨hdrop, ?_⟩
+  intro n hn
+  refine ⟨by rw [hN1, hN2, hn, hdrop]; omega, laterMarks_shift _ _ _ _ _ _ _ n hdrop hn,
+    laterMarks_shift _ _ _ _ _ _ _ n hdrop hn⟩
+
+/-- **Remove shift.**  Removing the segment `x` at position `|pre|` of `pre ++ x :: post` (`post`
+    without waituntil; `x` itself may be anything), when the blueprint forges before and after:
+    the waveform loses exactly the `n ≥ 2` samples of `x`, all other block lengths stay, and the
+    segment-bound markers of the later segments before the removal are those after the removal
+    moved by `n` samples - they come `n` samples earlier afterwards, together with their segments. -/
+theorem remove_shifts_later_markers (b : BP) (pre post : List Seg) (x : Seg) (name : String)
+    (hb : b.segs = pre ++ x :: post) (hi : b.indexOf? name = some pre.length)
+    (hpost : ∀ s ∈ post, s.fn.isWait = false) (sr : Rat) (hsr : b.SR = .num sr)
+    (f f' : Forged) (hf : forgeBP b = .ok f) (hf' : forgeBP (b.removeSegment name).st = .ok f') :
+    (b.removeSegment name).err = none ∧
+    ∃ n : Nat, 2 ≤ n ∧ f.N = f'.N + n ∧
+      f.blocks.map Blk.len = (f'.blocks.map Blk.len).take pre.length ++ n :: (f'.blocks.map Blk.len).drop pre.length ∧
+      laterMarks sr (·.m1) (pre ++ [x]) post (f.blocks.map Blk.len) =
+        (laterMarks sr (·.m1) pre post (f'.blocks.map Blk.len)).map (shiftMark sr n) ∧
+      laterMarks sr (·.m2) (pre ++ [x]) post (f.blocks.map Blk.len) =
+        (laterMarks sr (·.m2) pre post (f'.blocks.map Blk.len)).map (shiftMark sr n) := by
+  obtain ⟨hacc, hbody, _, _, hSR⟩ := removeSegment_split b pre post x name hb hi
+  refine ⟨hacc, ?_⟩
+  have hb1 : b.segs.map BP.Seg.body = ((pre ++ [x]) ++ post).map BP.Seg.body := by rw [hb]; simp
+  -- counts of `b` split after `x`, counts of the result split at the same place
+  obtain ⟨sr1, np1, nq1, e1, hnp1, hnq1, hl1, _, _, _, _, ⟨dp1, hr1, hd1⟩, hge⟩ :=
+    forge_split b (pre ++ [x]) post hb1 f hf
+  obtain ⟨sr2, np2, nq2, e2, hnp2, hnq2, hl2, _, _, _, _, ⟨dp2, hr2, hd2⟩, _⟩ :=
+    forge_split _ pre post hbody f' hf'
+  have hs1 : sr = sr1 := by rw [hsr] at e1; cases e1; rfl
+  subst hs1
+  have hs2 : sr = sr2 := by rw [hSR, hsr] at e2; cases e2; rfl
+  subst hs2
+  obtain ⟨da, dc, hra, hrc, rfl, hla⟩ := resolveGo_append_inv pre [x] 0 dp1 hr1
+  have : da = dp2 := by rw [hr2] at hra; cases hra; rfl
+  subst this
+  have hlc : dc.length = 1 := by simpa using resolveGo_length _ _ _ hrc
+  obtain ⟨dx, rfl⟩ : ∃ dx, dc = [dx] := by
+    cases dc with
+    | nil => simp at hlc
+    | cons y ys => cases ys with
+      | nil => exact ⟨y, rfl⟩
+      | cons z zs => simp at hlc
+  have hcs := common_suffix_shift (b.removeSegment name).st b pre (pre ++ [x]) post hbody hb1 hpost sr
+    (by rw [hSR, hsr]) hsr f' f hf' hf
+  have hnp1' : np1 = np2 ++ [(rhe (dx * sr)).toNat] := by rw [hd1, hd2]; simp
+  have hsum : sumN ((f.blocks.map Blk.len).take (pre ++ [x]).length) =
+      sumN ((f'.blocks.map Blk.len).take pre.length) + (rhe (dx * sr)).toNat := by
+    rw [hl1, hl2, List.take_left' hnp1, List.take_left' hnp2, hnp1', sumN_append]
+    simp [sumN]
+  obtain ⟨hN, hL1, hL2⟩ := hcs.2 _ hsum
+  refine ⟨(rhe (dx * sr)).toNat, ?_, hN, ?_, hL1, hL2⟩
+  · apply hge
+    rw [hnp1']; simp
+  · rw [hl1, hl2, List.take_left' hnp2, List.drop_left' hnp2, hnp1']
+    have : nq1 = nq2 := by
+      have h := hcs.1
+      rw [hl1, hl2, List.drop_left' hnp1, List.drop_left' hnp2] at h
+      exact h
+    rw [this]; simp
+
+/-- **changeDuration shift.**  A `changeDuration` call (any name, `replaceeverywhere` or not) that
+    does not address a segment of the waituntil-free suffix `post`, when the blueprint forges before
+    and after: the segments of `post` keep their sample counts, and their segment-bound markers
+    move by exactly the change `n` of the total sample count in front of them (stated for growth
+    and for shrinkage). -/
+theorem changeDuration_shifts_later_markers (b : BP) (name : String) (dur : Val) (all : Bool)
+    (pre post : List Seg) (hb : b.segs = pre ++ post)
+    (hnt : ∀ s ∈ post, (b.targets name all).2.contains s.name = false)
+    (hpost : ∀ s ∈ post, s.fn.isWait = false) (sr : Rat) (hsr : b.SR = .num sr)
+    (f f' : Forged) (hf : forgeBP b = .ok f) (hf' : forgeBP (b.changeDuration name dur all).st = .ok f') :
+    (f'.blocks.map Blk.len).drop pre.length = (f.blocks.map Blk.len).drop pre.length ∧
+    (∀ n : Nat, sumN ((f'.blocks.map Blk.len).take pre.length) = sumN ((f.blocks.map Blk.len).take pre.length) + n →
+      f'.N = f.N + n ∧
+      laterMarks sr (·.m1) pre post (f'.blocks.map Blk.len) =
+        (laterMarks sr (·.m1) pre post (f.blocks.map Blk.len)).map (shiftMark sr n) ∧
+      laterMarks sr (·.m2) pre post (f'.blocks.map Blk.len) =
+        (laterMarks sr (·.m2) pre post (f.blocks.map Blk.len)).map (shiftMark sr n)) ∧
+    (∀ n : Nat, sumN ((f.blocks.map Blk.len).take pre.length) = sumN ((f'.blocks.map Blk.len).take pre.length) + n →
+      f.N = f'.N + n ∧
+      laterMarks sr (·.m1) pre post (f.blocks.map Blk.len) =
+        (laterMarks sr (·.m1) pre post (f'.blocks.map Blk.len)).map (shiftMark sr n) ∧
+      laterMarks sr (·.m2) pre post (f.blocks.map Blk.len) =
+        (laterMarks sr (·.m2) pre post (f'.blocks.map Blk.len)).map (shiftMark sr n)) := by
+  obtain ⟨pre', hl, hsegs, _, _, hSR⟩ := changeDuration_suffix b name dur all pre post hb hnt
+  have h1 : b.segs.map BP.Seg.body = (pre ++ post).map BP.Seg.body := by rw [hb]
+  have h2 : (b.changeDuration name dur all).st.segs.map BP.Seg.body = (pre' ++ post).map BP.Seg.body := by
+    rw [hsegs]
+  have hs2 : (b.changeDuration name dur all).st.SR = .num sr := by rw [hSR, hsr]
+  have A := common_suffix_shift b _ pre pre' post h1 h2 hpost sr hsr hs2 f f' hf hf'
+  have B := common_suffix_shift _ b pre' pre post h2 h1 hpost sr hs2 hsr f' f hf' hf
+  -- `laterMarks` looks at `pre` only through its length
+  have hL : ∀ sel lens, laterMarks sr sel pre' post lens = laterMarks sr sel pre post lens := by
+    intro sel lens; unfold laterMarks; rw [hl]
+  rw [hl] at A B
+  simp only [hL] at A B
+  exact ⟨A.1, A.2, B.2⟩
+
+/-- non-vacuity: remove `ramp` in front of `ramp2`; lengthen `ramp` in front of `ramp2`.
+    (After the removal the marker of `ramp2`, delay -0.2 s, has its ON time before the waveform: the
+    *mark* is still the old one moved by 10 samples, but its window is clipped to start at 0 - the
+    case `shifted_window` excludes.) -/
+example : exampleBP.segs = [] ++ exampleBP.segs[0] :: [exampleBP.segs[1]] ∧
+    exampleBP.indexOf? "ramp" = some 0 ∧
+    (forgeBP exampleBP).toOption.map (fun f => (f.N, f.m2)) =
+      some (20, [0,0,0,0,0,0,0,0,1,1,1,1,1,0,0,0,0,0,0,0]) ∧
+    (forgeBP (exampleBP.removeSegment "ramp").st).toOption.map (fun f => (f.N, f.m2)) =
+      some (10, [1,1,1,1,1,0,0,0,0,0]) ∧
+    (forgeBP (exampleBP.changeDuration "ramp" (.num (3/2)) false).st).toOption.map (fun f => (f.N, f.m2)) =
+      some (25, [0,0,0,0,0,0,0,0,0,0,0,0,0,1,1,1,1,1,0,0,0,0,0,0,0]) ∧
+    (exampleBP.targets "ramp" false).2.contains "ramp2" = false := by
   decide +kernel
 
 end BB.C03
